@@ -734,16 +734,16 @@ Definition rule_total_ok (d : option dir) (r : rule) : Prop :=
 
 Theorem c20_manager rules s d : (forall r, In r rules -> rule_total_ok d r) -> zlen s < 8 * 65000 ->
   (exists p, cm_decompress compute_functions rules s d = Ok p) \/
-  cm_decompress compute_functions rules s d = Exc RuleIDMatchError \/ rules = [].
+  cm_decompress compute_functions rules s d = Exc RuleIDMatchError.
 Proof.
-  intros All Ls. destruct rules as [|r0 rules0] eqn:ER; [right; right; reflexivity|]. rewrite <- ER in *.
+  intros All Ls.
   unfold cm_decompress. destruct (match_schc_packet rules s) as [r|e|] eqn:EM.
   - left. cbn [bind]. apply match_schc_packet_sound in EM as [I _].
     destruct (All r I) as (T & SS & HLen & HSt). now apply c20_total.
-  - right. left. cbn [bind]. unfold match_schc_packet in EM. rewrite ER in EM. rewrite <- ER in EM.
+  - right. cbn [bind]. unfold match_schc_packet in EM.
     destruct (match_schc_loop rules s); [discriminate|]. injection EM as <-. reflexivity.
-  - exfalso. unfold match_schc_packet in EM. rewrite ER in EM.
-    destruct (match_schc_loop (r0 :: rules0) s); discriminate.
+  - exfalso. unfold match_schc_packet in EM.
+    destruct (match_schc_loop rules s); discriminate.
 Qed.
 
 (* a boolean form of the premise on the lengths of computed fields *)
